@@ -46,6 +46,14 @@ Definition fire (t : list Z) (i last : nat) : bool :=
 Definition cut_i1 (t : list Z) (i : nat) : nat := if nth (i + 1) t 0 =? SEP then (i + 1)%nat else i.
 Definition cut (t : list Z) (i last : nat) : list Z := firstn last t ++ skipn (cut_i1 t i + 1) t.
 
+Definition nxt (t : list Z) (i next : nat) : nat :=
+  if (1 <=? i)%nat && (nth (i - 1) t 0 =? SEP) then i else next.
+Definition lst (t : list Z) (i last next : nat) : nat :=
+  if nsd (nth i t 0) then nxt t i next else last.
+
+Lemma nxt_le : forall t i next, (next <= i)%nat -> (nxt t i next <= i)%nat.
+Proof. intros. unfold nxt. destruct ((1 <=? i)%nat && (nth (i - 1) t 0 =? SEP)); lia. Qed.
+
 Fixpoint dd_abs (fuel : nat) (i : nat) (t : list Z) (last next : nat) : option (list Z) :=
   match fuel with
   | O => None
@@ -54,9 +62,7 @@ Fixpoint dd_abs (fuel : nat) (i : nat) (t : list Z) (last next : nat) : option (
         if fire t i last then
           let t' := cut t i last in dd_abs f O t' (length t') O
         else
-          let next1 := if (1 <=? i)%nat && (nth (i - 1) t 0 =? SEP) then i else next in
-          let last1 := if nsd (nth i t 0) then next1 else last in
-          dd_abs f (S i) t last1 next1
+          dd_abs f (S i) t (lst t i last next) (nxt t i next)
       else Some t
   end.
 
@@ -162,14 +168,83 @@ Proof.
     { destruct (1 <=? i)%nat eqn:E1; [|reflexivity]. cbn [andb].
       replace (Z.of_nat i - 1) with (Z.of_nat (i - 1)) by lia. rewrite get_txt_nat by lia. reflexivity. }
     rewrite En. rewrite get_txt_nat by lia. fold (nsd (nth i t 0)).
-    set (next1 := if (1 <=? i)%nat && (nth (i - 1) t 0 =? SEP) then i else next) in *.
-    set (last1 := if nsd (nth i t 0) then next1 else last) in *.
+    set (next1 := nxt t i next) in *.
+    set (last1 := lst t i last next) in *.
     replace (if (1 <=? i)%nat && (nth (i - 1) t 0 =? SEP) then Z.of_nat i else Z.of_nat next) with (Z.of_nat next1)
-      by (unfold next1; destruct ((1 <=? i)%nat && (nth (i - 1) t 0 =? SEP)); reflexivity).
+      by (unfold next1, nxt; destruct ((1 <=? i)%nat && (nth (i - 1) t 0 =? SEP)); reflexivity).
     replace (if nsd (nth i t 0) then Z.of_nat next1 else Z.of_nat last) with (Z.of_nat last1)
-      by (unfold last1; destruct (nsd (nth i t 0)); reflexivity).
+      by (unfold last1, lst; fold next1; destruct (nsd (nth i t 0)); reflexivity).
     replace (Z.of_nat i + 1) with (Z.of_nat (S i)) by lia.
-    assert (Hn1 : (next1 <= i)%nat) by (unfold next1; destruct ((1 <=? i)%nat && (nth (i - 1) t 0 =? SEP)); lia).
+    assert (Hn1 : (next1 <= i)%nat) by (apply nxt_le; exact Hn).
     apply (IH (S i) t last1 next1 junk t'); [|lia|exact HW|exact H].
-    unfold last1. destruct (nsd (nth i t 0)); [right; lia|destruct Hl; [left; assumption|right; lia]].
+    unfold last1, lst. fold next1. destruct (nsd (nth i t 0)); [right; lia|destruct Hl; [left; assumption|right; lia]].
+Qed.
+
+(* ---- fuel-free reasoning about dd_abs --------------------------------------------------------- *)
+Lemma dd_abs_mono : forall f i t last next r, dd_abs f i t last next = Some r ->
+  forall f', (f <= f')%nat -> dd_abs f' i t last next = Some r.
+Proof.
+  induction f as [|f IH]; intros i t last next r H f' Hf; [discriminate|].
+  destruct f' as [|f']; [lia|]. cbn [dd_abs] in *.
+  destruct (i <? length t)%nat; [|exact H].
+  destruct (fire t i last); apply (IH _ _ _ _ _ H); lia.
+Qed.
+
+Definition dd_res (i : nat) (t : list Z) (last next : nat) (r : list Z) : Prop :=
+  exists f, dd_abs f i t last next = Some r.
+
+Lemma dd_res_det : forall i t last next a b f,
+  dd_res i t last next a -> dd_abs f i t last next = Some b -> a = b.
+Proof.
+  intros i t last next a b f [fa Ha] Hb.
+  pose proof (dd_abs_mono _ _ _ _ _ _ Ha (Nat.max fa f) (Nat.le_max_l _ _)) as A.
+  pose proof (dd_abs_mono _ _ _ _ _ _ Hb (Nat.max fa f) (Nat.le_max_r _ _)) as B0.
+  congruence.
+Qed.
+
+Lemma dd_res_exit : forall i t last next, (length t <= i)%nat -> dd_res i t last next t.
+Proof.
+  intros. exists 1%nat. cbn [dd_abs]. destruct (i <? length t)%nat eqn:E; [apply Nat.ltb_lt in E; lia|reflexivity].
+Qed.
+
+Lemma dd_res_adv : forall i t last next r, (i < length t)%nat -> fire t i last = false ->
+  dd_res (S i) t (lst t i last next) (nxt t i next) r ->
+  dd_res i t last next r.
+Proof.
+  intros i t last next r Hi Hf [f H]. exists (S f). cbn [dd_abs].
+  apply Nat.ltb_lt in Hi. rewrite Hi, Hf. exact H.
+Qed.
+
+Lemma dd_res_fire : forall i t last next r, (i < length t)%nat -> fire t i last = true ->
+  dd_res 0 (cut t i last) (length (cut t i last)) 0 r -> dd_res i t last next r.
+Proof.
+  intros i t last next r Hi Hf [f H]. exists (S f). cbn [dd_abs].
+  apply Nat.ltb_lt in Hi. rewrite Hi, Hf. exact H.
+Qed.
+
+Lemma dd_res_adv_inv : forall i t last next r, (i < length t)%nat -> fire t i last = false ->
+  dd_res i t last next r ->
+  dd_res (S i) t (lst t i last next) (nxt t i next) r.
+Proof.
+  intros i t last next r Hi Hf [f H]. destruct f as [|f]; [discriminate|]. cbn [dd_abs] in H.
+  apply Nat.ltb_lt in Hi. rewrite Hi, Hf in H. exists f. exact H.
+Qed.
+
+(* termination for every text *)
+Lemma dd_abs_total : forall fuel i t last next,
+  (last = length t \/ last <= i)%nat -> (next <= i)%nat ->
+  ((length t - i) + length t * (length t + 2) < fuel)%nat ->
+  exists r, dd_abs fuel i t last next = Some r.
+Proof.
+  induction fuel as [|f IH]; intros i t last next Hl Hn Hf; [lia|].
+  cbn [dd_abs]. destruct (i <? length t)%nat eqn:Ei; [|eexists; reflexivity].
+  apply Nat.ltb_lt in Ei. destruct (fire t i last) eqn:Efire.
+  - assert (Hlast : (last <= i)%nat).
+    { unfold fire in Efire. destruct (last <? length t)%nat eqn:E; [|discriminate]. apply Nat.ltb_lt in E. lia. }
+    destruct (cut_length t i last Ei Hlast) as (CL1 & _ & _).
+    apply IH; [left; reflexivity|lia|]. nia.
+  - pose proof (nxt_le t i next Hn) as Hn1.
+    apply IH; [|lia|lia].
+    unfold lst. destruct (nsd (nth i t 0)); [right; lia|].
+    destruct Hl; [left; assumption|right; lia].
 Qed.
